@@ -644,6 +644,29 @@ mut('C08-cwmm-em-loop-counted-from-one-short', 'C08', D + 'cwmm.py', "        fo
 neu('N20-bingham-fit-flat-index-unravelled', ALLP, [(D + 'complex_bingham.py', "        for index in np.ndindex(scatter_eigenvalues.shape[:-1]):",
                                                     "        independent_shape = scatter_eigenvalues.shape[:-1]\n        for flat_index in range(int(np.prod(independent_shape))):\n            index = np.unravel_index(flat_index, independent_shape)", False)],
     note='(int(np.prod(...)) is not the form the rule reads: C03 / C06 may stay undecided)')
+# ---- ninth pass (round-12 rules): the correct twins of the seeded rewrites
+CACG = D + 'complex_angular_central_gaussian.py'
+BF = 'pb_bss/extraction/beamformer.py'
+# (np.take(eigenvals, -1, axis=-1) would NOT be a neutral twin: the handler path decomposes with np.linalg.eig, whose eigenvalues are not sorted)
+mut('C05-cacg-relative-floor-from-the-flattened-stack', 'C05', CACG, "                np.amax(eigenvals, axis=-1, keepdims=True) * eigenvalue_floor,",
+    "                np.take(eigenvals, -1) * eigenvalue_floor,", expect='flat-index', props=['C05'])
+neu('N21-pca-decomposed-blockwise', ALLP, [(BF, "        beamforming_vector = eigenvecs[..., -1]\n        eigenvalues = eigenvals[..., -1]\n        # Reconstruct original shape\n",
+    "        bins = target_psd_matrix.shape[0]\n        block = 1024\n        beamforming_vector = np.zeros((bins, shape[-1]), dtype=eigenvecs.dtype)\n        eigenvalues = np.zeros(bins, dtype=eigenvals.dtype)\n"
+    "        for b in range(-(-bins // block)):\n            s = slice(b * block, (b + 1) * block)\n            vals, vecs = np.linalg.eigh(target_psd_matrix[s])\n"
+    "            beamforming_vector[s] = vecs[..., -1]\n            eigenvalues[s] = vals[..., -1]\n        # Reconstruct original shape\n", False)])
+mut('C12-pca-decomposed-blockwise-floor-number-of-blocks', 'C12', BF, "        beamforming_vector = eigenvecs[..., -1]\n        eigenvalues = eigenvals[..., -1]\n        # Reconstruct original shape\n",
+    "        bins = target_psd_matrix.shape[0]\n        block = 1024\n        beamforming_vector = np.zeros((bins, shape[-1]), dtype=eigenvecs.dtype)\n        eigenvalues = np.zeros(bins, dtype=eigenvals.dtype)\n"
+    "        for b in range(bins // block):\n            s = slice(b * block, (b + 1) * block)\n            vals, vecs = np.linalg.eigh(target_psd_matrix[s])\n"
+    "            beamforming_vector[s] = vecs[..., -1]\n            eigenvalues[s] = vals[..., -1]\n        # Reconstruct original shape\n", expect='last-block', props=['C12', 'C13'])
+neu('N21-psd-source-branch-by-matmul', ALLP, [(BF, "            psd = np.einsum(\n                '...kt,...dt,...et->...kde',\n                mask,\n                observation,\n                observation.conj()\n            )\n",
+    "            psd = np.matmul(\n                mask[..., :, None, :] * observation[..., None, :, :],\n                np.swapaxes(observation.conj(), -1, -2)[..., None, :, :],\n            )\n", False)])
+mut('C10-psd-source-branch-by-matmul-conjugate-on-the-row-factor', 'C10', BF, "            psd = np.einsum(\n                '...kt,...dt,...et->...kde',\n                mask,\n                observation,\n                observation.conj()\n            )\n",
+    "            psd = np.matmul(\n                mask[..., :, None, :] * observation.conj()[..., None, :, :],\n                np.swapaxes(observation, -1, -2)[..., None, :, :],\n            )\n", expect='conj-second', props=['C10'])
+neu('N21-mvdr-hermitian-in-place-on-the-ufunc-result', ALLP, [(BF, "    noise_psd_matrix = 0.5 * (\n        noise_psd_matrix + np.conj(noise_psd_matrix.swapaxes(-1, -2))\n    )\n",
+    "    hermitian = np.conj(noise_psd_matrix.swapaxes(-1, -2))\n    hermitian += noise_psd_matrix\n    hermitian *= 0.5\n    noise_psd_matrix = hermitian\n", False)],
+    note='np.conj (the ufunc) always allocates: the in-place steps work on an own array (C11 may not read the formula any more)')
+mut('C20-mvdr-hermitian-in-place-on-the-method-result', 'C20', BF, "    noise_psd_matrix = 0.5 * (\n        noise_psd_matrix + np.conj(noise_psd_matrix.swapaxes(-1, -2))\n    )\n",
+    "    hermitian = noise_psd_matrix.swapaxes(-1, -2).conj()\n    hermitian += noise_psd_matrix\n    hermitian *= 0.5\n    noise_psd_matrix = hermitian\n", expect='noise_psd_matrix', props=['C20'])
 # ---- whole refactorings written by independent sub-agents (14-20 behaviour-preserving edits each, verified bit-identical on
 #      600-900 inputs per patch): every check must stay silent on each of them
 for r, what in (('R1', 'mixture_model_utils / cacgmm / cACG'), ('R2', 'cwmm / cbmm / Watson / Bingham / distribution.utils'), ('R3', 'gmm / gaussian / vMF / gcacgmm / vmfcacgmm'),
